@@ -578,12 +578,12 @@ pub fn stages(ctx: &Ctx) -> Vec<Stage> {
     let tier = ctx.tier;
     vec![
         Stage::new("systems-anchors", 12, move |i, rep| anchor_case(rep, i)),
-        Stage::new("systems", tier.pick(40_000, 1_000_000), move |i, rep| {
+        Stage::new("systems", tier.pick(120_000, 1_000_000), move |i, rep| {
             let mut rng = if i < 500 { Rng::for_case(4242, "c08-sys-anchor", i) } else { Rng::for_case(seed, "c08-sys", i) };
             regular_case(&mut rng, rep);
         }),
         Stage::new("singular-anchors", 20_000, move |i, rep| singular_anchor_case(rep, i)),
-        Stage::new("systems-err", tier.pick(8_000, 200_000), move |i, rep| {
+        Stage::new("systems-err", tier.pick(40_000, 200_000), move |i, rep| {
             let mut rng = if i < 200 { Rng::for_case(4242, "c08-syserr-anchor", i) } else { Rng::for_case(seed, "c08-syserr", i) };
             err_case(&mut rng, rep, i);
         }),
